@@ -18,54 +18,80 @@ CALLEE_FN = {'encoder.encode': ('encoder', 'encode'), 'make': ('__init__', 'make
              'encoder.encode_sequence': ('encoder', 'encode_sequence')}
 
 
+def _bind_call(cfn, args, kwargs):
+    """{parameter name: value} of a call of `cfn` with positional `args` and keyword `kwargs`."""
+    cparams = src.params(cfn)
+    if len(args) > len(cparams) or set(kwargs) - set(cparams):
+        raise Unknown(f'call of {cfn.name} does not fit its signature')
+    bound = dict(zip(cparams, args))
+    for k, v in kwargs.items():
+        if k in bound:
+            raise Unknown(f'{cfn.name}: parameter {k} passed twice')
+        bound[k] = v
+    return bound
+
+
+class _Sent(str):
+    """A parameter value that stands for "whatever the caller passed as <name>"."""
+
+
+def run_wrapper(fx, w):
+    """Interpret the public factory `w` with every parameter set to a marker of its own; returns (what the encoder entry point
+    received per parameter, entry point name, the value returned)."""
+    from .. import ev
+    from ..interp import Interp, FuncVal, callable_env
+    it = Interp()
+    rec = []
+
+    def entry(name):
+        cfn = fx.fn('encoder', name)
+
+        def f(*a, **k):
+            rec.append((name, _bind_call(cfn, a, k)))
+            return [('CODE', 0), ('CODE', 1)] if name == 'encode_sequence' else ('CODE',)
+        return f
+    genv = callable_env(fx.forest, '__init__', it, {
+        'encoder': ev.Namespace('encoder', {'encode': entry('encode'), 'encode_sequence': entry('encode_sequence')}),
+        'QRCode': lambda code: ('QRCode', code), 'QRCodeSequence': lambda codes: ('QRCodeSequence', tuple(codes))})
+    fn = fx.fn('__init__', w)
+    args = {p: _Sent(f'<{p}>') for p in src.params(fn)}
+    res = FuncVal(fn, genv, it)(**args)
+    if len(rec) != 1:
+        raise Unknown(f'{w}: {len(rec)} calls of the encoder entry points, expected one')
+    return rec[0][1], rec[0][0], res
+
+
 def forwarding(fx, wanted):
-    """Obligations: every parameter p in `wanted` that wrapper W has is passed to the same-named parameter
-    of its callee, unchanged; and the wrapper's default for p equals the callee's default."""
+    """Obligations: every parameter p in `wanted` that the public factory W has reaches the same-named parameter of the
+    encoder entry point unchanged (W is interpreted with a marker per parameter and a recording entry point); the factory's
+    default for p equals the entry point's default; make_qr / make_micro pin micro."""
+    from .. import ev
     for w, (callee, pinned) in WRAPPERS.items():
         fn = fx.fn('__init__', w)
-        ret = single([s for s in fn.body if isinstance(s, ast.Return)], f'return in {w}')
-        calls = [c for c in ast.walk(ret.value) if isinstance(c, ast.Call) and src.call_name(c) == callee]
-        call = single(calls, f'call of {callee} in {w}')
-        cfn = fx.fn(*CALLEE_FN[callee])
-        cparams = src.params(cfn)
-        bound = {}
-        for i, a in enumerate(call.args):
-            if isinstance(a, ast.Starred):
-                raise Unknown(f'{w}: starred argument')
-            bound[cparams[i]] = a
-        for k in call.keywords:
-            if k.arg is None:
-                raise Unknown(f'{w}: **kwargs forwarding')
-            bound[k.arg] = k.value
+        got, entry_name, res = run_wrapper(fx, w)
+        cfn = fx.fn('encoder', entry_name)
         wdef, cdef = src.param_defaults(fn), src.param_defaults(cfn)
+        env = ev.base_env(fx.forest, '__init__')
+        cenv = ev.base_env(fx.forest, 'encoder')
         for p in src.params(fn):
             if p not in wanted:
                 continue
-            got = bound.get(p)
-            ok = isinstance(got, ast.Name) and got.id == p
-            yield ob(f'{w}({p}) -> {callee}({p})', ok, call, got=f'{p}={ast.unparse(got)}' if got is not None else f'{p} not passed',
-                     want=f'{p}={p}')
+            v = got.get(p, '<not passed>')
+            ok = isinstance(v, _Sent) and v == f'<{p}>'
+            yield ob(f'{w}({p}) -> encoder.{entry_name}({p})', ok, fn, got=f'{p}={v}', want=f'{p}=<{p}>')
             if p in wdef or p in cdef:
                 a, b = wdef.get(p), cdef.get(p)
-                same = a is not None and b is not None and ast.unparse(a) == ast.unparse(b)
-                yield ob(f'{w}: default of {p} = default of {callee}', same, fn,
+                same = a is not None and b is not None and (ast.unparse(a) == ast.unparse(b) or ev.ev(a, env) == ev.ev(b, cenv))
+                yield ob(f'{w}: default of {p} = default of encoder.{entry_name}', same, fn,
                          got=f'{ast.unparse(a) if a is not None else "required"} vs {ast.unparse(b) if b is not None else "required"}',
                          want='equal defaults')
         for p, val in pinned.items():
             if p in wanted:
-                got = bound.get(p)
-                ok = isinstance(got, ast.Constant) and got.value is val
-                yield ob(f'{w} pins {p}={val}', ok, call, got=ast.unparse(got) if got is not None else 'not passed', want=repr(val))
-    # QRCode wraps the encoder result unchanged
-    if 'content' in wanted:
-        for w in ('make',):
-            fn = fx.fn('__init__', w)
-            ret = single([s for s in fn.body if isinstance(s, ast.Return)], f'return in {w}')
-            ok = isinstance(ret.value, ast.Call) and src.call_name(ret.value) == 'QRCode' and len(ret.value.args) == 1
-            yield ob('make returns QRCode(encoder.encode(...))', ok, ret, got=ast.unparse(ret.value)[:60], want='QRCode(encoder.encode(...))')
-        fn = fx.fn('__init__', 'make_sequence')
-        ret = single([s for s in fn.body if isinstance(s, ast.Return)], 'return in make_sequence')
-        txt = ast.unparse(ret.value)
-        yield ob('make_sequence returns QRCodeSequence(map(QRCode, encoder.encode_sequence(...)))',
-                 txt.startswith('QRCodeSequence(map(QRCode, encoder.encode_sequence('), ret, got=txt[:70],
-                 want='QRCodeSequence(map(QRCode, encoder.encode_sequence(...)))')
+                v = got.get(p, '<not passed>')
+                yield ob(f'{w} pins {p}={val}', v is val, fn, got=repr(v), want=repr(val))
+        if 'content' in wanted and w == 'make':
+            yield ob('make returns QRCode(encoder.encode(...))', res == ('QRCode', ('CODE',)), fn, got=repr(res)[:60], want='QRCode(<what encode returned>)')
+        if 'content' in wanted and w == 'make_sequence':
+            yield ob('make_sequence returns QRCodeSequence(map(QRCode, encoder.encode_sequence(...)))',
+                     res == ('QRCodeSequence', (('QRCode', ('CODE', 0)), ('QRCode', ('CODE', 1)))), fn, got=repr(res)[:90],
+                     want='QRCodeSequence of one QRCode per code, in order')
